@@ -9,6 +9,7 @@
 //!   mode c : Connection::execute_iter on a bare connection (hook scylla::client::verif_pager), policy f
 //!   script : pages joined by ';' ; page = <faults>/<resp>
 //!     faults : '-' | f(,f)*  f = T (no reply: client timeout) | D<ms> (delayed reply) |
+//!              U (ERROR UNPREPARED: the driver re-prepares and re-sends the EXECUTE) |
 //!              E<hexcode><s|n|d|i> (ERROR with that code; the retry decision the policy takes:
 //!              same target / next target / don't retry / ignore); code 10004 = the mock resets
 //!              the connection instead of answering
@@ -47,6 +48,8 @@ const TIMEOUT_MS: u64 = 4000;
 #[derive(Clone, Debug, PartialEq)]
 enum Fault {
     Timeout,
+    /// EXECUTE answered UNPREPARED: the driver re-prepares and re-sends inside the same attempt
+    Unprep,
     Delay(u64),
     Err(u32, char),
 }
@@ -100,6 +103,7 @@ impl Case {
                     fs.iter()
                         .map(|f| match f {
                             Fault::Timeout => "T".to_string(),
+                            Fault::Unprep => "U".to_string(),
                             Fault::Delay(ms) => format!("D{:x}", ms),
                             Fault::Err(c, d) => format!("E{:x}{}", c, d),
                         })
@@ -150,6 +154,7 @@ impl Case {
                 for t in fs.split(',') {
                     faults.push(match t.as_bytes()[0] {
                         b'T' => Fault::Timeout,
+                        b'U' => Fault::Unprep,
                         b'D' => Fault::Delay(u64::from_str_radix(&t[1..], 16).ok()?),
                         b'E' => Fault::Err(u32::from_str_radix(&t[1..t.len() - 1], 16).ok()?, t.chars().last()?),
                         _ => return None,
@@ -284,6 +289,7 @@ async fn make_env(nodes: usize) -> Env {
     let profile = scylla::client::execution_profile::ExecutionProfile::builder().request_timeout(None).build();
     let session: Session = SessionBuilder::new()
         .known_node_addr(cluster.contact_point(0))
+        .local_ip_address(Some(cluster.client_ip()))
         .connection_timeout(Duration::from_secs(60))
         .default_execution_profile_handle(profile.into_handle())
         .keepalive_interval(Duration::from_secs(3600))
@@ -304,6 +310,7 @@ fn actions_for(env: &Env, c: &Case) -> Vec<Action> {
         for f in fs {
             match f {
                 Fault::Timeout => out.push(Action::NoReply),
+                Fault::Unprep => out.push(Action::Unprepared),
                 Fault::Delay(ms) => out.push(Action::Delay(*ms)),
                 Fault::Err(code, _) if *code == E_BROKEN => out.push(Action::Close(CutKind::Rst)),
                 Fault::Err(code, d) => out.push(Action::Error(ErrorSpec::new(dberr_for(*code), &format!("verif:{}", d)))),
@@ -631,12 +638,30 @@ fn gen_case(r: &mut Rng, max_rows: usize, tier_thorough: bool) -> Case {
         }
         script.push((faults, Resp::Rows(rows.clone(), st)));
     }
-    if bcase && policy == "x" {
-        // exactly one reset connection, as the only next-target decision of its page
+    if bcase && mode == 's' {
+        // exactly one reset connection, as the only next-target decision of its page.  With the
+        // scripted policy and with DefaultRetryPolicy on an idempotent statement the broken
+        // connection is retried on the next target; DefaultRetryPolicy on a non-idempotent
+        // statement does not retry it (the error surfaces after the earlier pages)
         let kb = r.below(npages as u64) as usize;
         script[kb].0.retain(|f| !matches!(f, Fault::Err(_, 'n')));
         let at = r.below(script[kb].0.len() as u64 + 1) as usize;
-        script[kb].0.insert(at, Fault::Err(E_BROKEN, 'n'));
+        if policy == "dn" {
+            script[kb].0.truncate(at);
+            script[kb].0.push(Fault::Err(E_BROKEN, 'd'));
+        } else {
+            script[kb].0.insert(at, Fault::Err(E_BROKEN, 'n'));
+        }
+    }
+    if api != 'q' && npages >= 2 && r.chance(1, 8) {
+        // the prepared statement is evicted while the caller pages
+        let k = r.range(1, npages as u64 - 1) as usize;
+        script[k].0.insert(0, Fault::Unprep);
+    }
+    if r.chance(1, 30) {
+        // a reply that takes long compared with everything else (but there is no timeout)
+        let k = r.below(npages as u64) as usize;
+        script[k].0.insert(0, Fault::Delay(r.range(50, 300)));
     }
     let mut kind = 'F';
     // boundary / failing stream
@@ -729,6 +754,8 @@ fn small_exhaustive() -> Vec<Case> {
 fn timeout_cases(r: &mut Rng, n: usize) -> Vec<Case> {
     (0..n)
         .map(|i| {
+            let mode = if i % 2 == 1 { 'c' } else { 's' };
+            let nodes = r.range(2, 4) as usize;
             let npages = r.range(1, 4) as usize;
             let k = r.below(npages as u64) as usize;
             let mut next = 0x7000u32 + (i as u32) * 64;
@@ -738,18 +765,100 @@ fn timeout_cases(r: &mut Rng, n: usize) -> Vec<Case> {
                     let st = if p + 1 == npages { None } else { Some(gen_state(r)) };
                     let mut fs = vec![];
                     if p == k {
-                        if r.bool() {
-                            fs.push(Fault::Err(0x1001, 's'));
+                        // the timeout covers all attempts of the page: also after a retry on the
+                        // same or on the next target
+                        match r.below(3) {
+                            0 => fs.push(Fault::Err(0x1001, 's')),
+                            1 if mode == 's' => fs.push(Fault::Err(0x1002, 'n')),
+                            _ => {}
                         }
                         fs.push(Fault::Timeout);
                     }
                     (fs, Resp::Rows(rows, st))
                 })
                 .collect();
-            {
-                let mode = if i % 2 == 1 { 'c' } else { 's' };
-                Case { kind: 'T', mode, api: if mode == 'c' || r.bool() { 'e' } else { 'q' }, cons: Cons::Full, nodes: 2, policy: if mode == 'c' { "f".into() } else { "x".into() }, script }
+            let cons = match r.below(3) {
+                0 => Cons::Jitter,
+                1 => Cons::Slow(1),
+                _ => Cons::Full,
+            };
+            Case { kind: 'T', mode, api: if mode == 'c' || r.bool() { 'e' } else { 'q' }, cons, nodes, policy: if mode == 'c' { "f".into() } else { "x".into() }, script }
+        })
+        .collect()
+}
+
+/// slow consumer x error on a later page: the worker is ahead (page 1 sits in the channel while
+/// the caller still reads page 0) when the request of page k >= 2 fails; the error must still
+/// reach the caller after every row of the earlier pages
+fn slow_error_cases(r: &mut Rng, n: usize) -> Vec<Case> {
+    (0..n)
+        .map(|i| {
+            let mode = if i % 4 == 3 { 'c' } else { 's' };
+            let npages = r.range(3, 5) as usize;
+            let k = r.range(2, npages as u64 - 1) as usize;
+            let mut next = 0x9000u32 + (i as u32) * 64;
+            let script = (0..npages)
+                .map(|p| {
+                    let nrows = if p == 0 { r.range(3, 6) } else { r.below(4) };
+                    let rows: Vec<u32> = (0..nrows).map(|_| { next += 1; next }).collect();
+                    let st = if p + 1 == npages { None } else { Some(gen_state(r)) };
+                    let mut fs = vec![];
+                    if p == k {
+                        if mode == 's' && r.bool() {
+                            fs.push(Fault::Err(0x1001, 's'));
+                        }
+                        fs.push(Fault::Err(*r.pick(&[0x2200u32, 0x2000, 0x1001, 0x1200]), 'd'));
+                    }
+                    (fs, Resp::Rows(rows, st))
+                })
+                .collect();
+            Case {
+                kind: 'S',
+                mode,
+                api: if mode == 'c' { 'e' } else { *r.pick(&['q', 'e', 'E']) },
+                cons: Cons::Slow(r.range(2, 4)),
+                nodes: r.range(1, 3) as usize,
+                policy: if mode == 'c' { "f".into() } else { "x".into() },
+                script,
             }
+        })
+        .collect()
+}
+
+/// prepared statement evicted on the server while the caller pages: UNPREPARED on page k >= 1
+/// (and sometimes on page 0); the re-sent EXECUTE must carry the same paging state
+fn unprepared_cases(r: &mut Rng, n: usize) -> Vec<Case> {
+    (0..n)
+        .map(|i| {
+            let mode = if i % 5 == 4 { 'c' } else { 's' };
+            let npages = r.range(2, 5) as usize;
+            let mut next = 0xb000u32 + (i as u32) * 64;
+            let mut script: Vec<(Vec<Fault>, Resp)> = (0..npages)
+                .map(|p| {
+                    let rows: Vec<u32> = (0..r.range(1, 4)).map(|_| { next += 1; next }).collect();
+                    let st = if p + 1 == npages { None } else { Some(gen_state(r)) };
+                    (vec![], Resp::Rows(rows, st))
+                })
+                .collect();
+            let k = r.range(1, npages as u64 - 1) as usize;
+            script[k].0.push(Fault::Unprep);
+            if r.chance(1, 4) {
+                script[0].0.push(Fault::Unprep);
+            }
+            if mode == 's' && r.chance(1, 3) {
+                // eviction and a retried error on the same page, either order
+                if r.bool() {
+                    script[k].0.push(Fault::Err(0x1001, 's'));
+                } else {
+                    script[k].0.insert(0, Fault::Err(0x1001, 's'));
+                }
+            }
+            let cons = match r.below(4) {
+                0 => Cons::Slow(1),
+                1 => Cons::Jitter,
+                _ => Cons::Full,
+            };
+            Case { kind: 'U', mode, api: if mode == 'c' || r.bool() { 'e' } else { 'E' }, cons, nodes: r.range(1, 3) as usize, policy: if mode == 'c' { "f".into() } else { "x".into() }, script }
         })
         .collect()
 }
@@ -774,11 +883,13 @@ fn main() {
     let a = parse_args();
     quiet_panics();
     let mut cases: Vec<Case> = Vec::new();
+    // lines that could not even be parsed: reported, never dropped
+    let mut unparsable: Vec<String> = Vec::new();
     if let Some(p) = &a.replay {
         for l in read_cases(p) {
             match Case::parse(&l) {
                 Some(c) => cases.push(c),
-                None => eprintln!("c07: cannot parse replay case: {}", l),
+                None => unparsable.push(l),
             }
         }
     } else {
@@ -789,10 +900,13 @@ fn main() {
         for _ in 0..a.n {
             cases.push(gen_case(&mut r, max_rows, thorough));
         }
+        cases.extend(slow_error_cases(&mut r, if thorough { 80 } else { 16 }));
+        cases.extend(unprepared_cases(&mut r, if thorough { 80 } else { 16 }));
         cases.extend(timeout_cases(&mut r, if thorough { 12 } else { 4 }));
     }
+    let all_lines: Vec<String> = cases.iter().map(|c| c.line()).collect();
     let rt = tokio::runtime::Builder::new_multi_thread().worker_threads(6).enable_all().build().expect("runtime");
-    let results = rt.block_on(async move {
+    let mut results = rt.block_on(async move {
         // groups: one environment per node count; timeout cases (each waits for the client
         // timeout) get environments of their own and run side by side
         let mut groups: Vec<(usize, bool, Vec<(usize, Case)>)> = Vec::new();
@@ -814,15 +928,27 @@ fn main() {
         for h in handles {
             match h.await {
                 Ok(v) => all.extend(v),
+                // the cases of a group that died (mock cluster / session could not start, a
+                // panic in the runner) are reported below as `error group-failed`
                 Err(e) => eprintln!("c07: group failed: {:?}", e),
             }
         }
-        all.sort_by_key(|x| x.0);
         all
     });
+    // every generated / replayed case gets a line: what did not run is an error, not silence
+    let done: std::collections::HashSet<usize> = results.iter().map(|x| x.0).collect();
+    for (i, l) in all_lines.iter().enumerate() {
+        if !done.contains(&i) {
+            results.push((i, l.clone(), "error group-failed".to_string()));
+        }
+    }
+    results.sort_by_key(|x| x.0);
     let mut out = Out::create(&a.out);
     for (_, c, o) in results {
         out.case(&c, &o);
+    }
+    for l in unparsable {
+        out.case(&l, "error unparsable-case");
     }
     out.finish();
 }
